@@ -1,3 +1,4 @@
+from collections import deque
 from dataclasses import dataclass
 from dataclasses import field
 import re
@@ -11,10 +12,25 @@ from typing import TypeVar
 class BadCueSheet(Exception): pass
 
 
+def _pop_first(lines) -> str:
+    # parse_cue_sheet works on a deque: taking lines off the front of a list 
+    # one by one costs quadratic time on a text file with many lines
+    if isinstance(lines, deque):
+        return lines.popleft()
+    return lines.pop(0)
+
+
+def _push_first(text: str, lines):
+    if isinstance(lines, deque):
+        lines.appendleft(text)
+        return lines
+    return [text] + lines
+
+
 def get_nonempty_entry(lines: List[str]) -> Tuple[str, List[str]]:
     text = ""
     while len(lines):
-        text = lines.pop(0).strip()
+        text = _pop_first(lines).strip()
         if len(text):
             break
     return text, lines
@@ -76,7 +92,7 @@ class CueSheetTrackAdapter:
             # Check if next track began
             result = _TRACK_LINE_REGEX.match(text)
             if result:
-                lines = [text] + lines
+                lines = _push_first(text, lines)
                 break
 
             # check known properties
@@ -131,7 +147,7 @@ class CueSheetFileAdapter:
             text, lines = get_nonempty_entry(lines)
             if len(text) <= 0:
                 break
-            lines = [text] + lines
+            lines = _push_first(text, lines)
             track, lines = CueSheetTrackAdapter.parse(lines)
             if track:
                 cue_sheet.tracks.append(track)
@@ -140,12 +156,13 @@ class CueSheetFileAdapter:
 
 
 def parse_cue_sheet(lines: List[str]) -> CueSheetFile:
+    lines = deque(lines)  # type: ignore
     cue_sheet_files = []
     while len(lines):
         text, lines = get_nonempty_entry(lines)
         match_result = _FILE_LINE_REGEX.match(text)
         if match_result:
-            lines = [text] + lines
+            lines = _push_first(text, lines)
             cue_sheet_file, lines = CueSheetFileAdapter.parse(lines)
             cue_sheet_files.append(cue_sheet_file)
     
